@@ -110,8 +110,36 @@ def render_sections(secs: typ.Iterable[tuple[str, list[str]]], newline: str = "\
     return newline.join(out) + (newline if final_newline else "")
 
 
+_LP = ["  ", "  ", "\t", "", "    ", " \t", "  "]
+_RP = ["", "", " ", "\t", "", "  ", ""]
+
+
+def format_line(line: str, fmt: int, i: int, section: str = "") -> str:
+    """Blank padding around a body line, a deterministic function of (fmt, line index).  fmt == 0 is the
+    canonical Moonscraper layout (two blanks, nothing trailing).  Every recogniser of the format is
+    written to accept leading blanks/tabs; all but the anchor recogniser accept trailing ones, so anchor
+    lines never get trailing padding."""
+    if not fmt:
+        return "  " + line
+    h = (fmt * 2654435761 + i * 40503 + len(section) * 97) & 0xFFFFFFFF
+    lp = _LP[(h >> 3) % len(_LP)]
+    rp = _RP[(h >> 11) % len(_RP)]
+    if " = A " in line:
+        rp = ""
+    return lp + line + rp
+
+
 def render(spec, newline: str = "\n", indent: str = "  ") -> str:
-    return render_sections(sections_of(spec), newline=newline, indent=indent)
+    fmt = spec.get("fmt", 0)
+    if not fmt:
+        return render_sections(sections_of(spec), newline=newline, indent=indent)
+    out: list[str] = []
+    for name, body in sections_of(spec):
+        out.append(f"[{name}]")
+        out.append("{")
+        out.extend(format_line(line, fmt, i, name) for i, line in enumerate(body))
+        out.append("}")
+    return newline.join(out) + newline
 
 
 def minimal_spec(res: int = 192, bpm_n: int = 120000) -> dict:
